@@ -3,55 +3,132 @@ C04 — items are visible until their expiry time passes and never afterwards.
 The instant `now = expire_time` is deliberately left unconstrained (look-ups
 treat it as expired, `incr`/`pull`/`peek` as live; tests pin the strict `<`).
 -/
-import DC.Proofs.Expiry
+import DC.Proofs.Cull
 
 namespace DC.Cache
 
 /-- an item without a time-to-live is live at every instant -/
 theorem no_ttl_never_expires (r : Row) (h : r.expT = none) (now : Int) :
     live now r = true ∧ expired now r = false := by
-  sorry
+  simp [live, expired, h]
+
+/- STATEMENT AS GIVEN — FALSE for a row whose key is NULL (`NULL = NULL` is not true in SQL,
+`SqlVal.eqv .null .null = false`), see `live_visible_counterexample` below:
+
+theorem live_visible (s : Cache) (hu : KeysUnique s.rows) (r : Row) (hr : r ∈ s.rows) (now : Int)
+    (hl : live now r = true) : s.selLive r.key r.raw now = some r
+
+Corrected by the hypothesis `r.key ≠ .null`, which `TableInv.nonnull` provides. -/
 
 /-- a look-up finds a stored, unexpired item (every look-up is `selLive`) -/
-theorem live_visible (s : Cache) (hu : KeysUnique s.rows) (r : Row) (hr : r ∈ s.rows) (now : Int)
+theorem live_visible_partial (s : Cache) (hu : KeysUnique s.rows) (r : Row) (hr : r ∈ s.rows)
+    (hnn : r.key ≠ .null) (now : Int)
     (hl : live now r = true) : s.selLive r.key r.raw now = some r := by
-  sorry
+  unfold selLive
+  generalize s.rows = rows at hu hr
+  induction rows with
+  | nil => cases hr
+  | cons a t ih =>
+    rw [KeysUnique, List.pairwise_cons] at hu
+    rcases List.mem_cons.1 hr with e | hr'
+    · subst e
+      simp [keyMatch, eqv_self hnn, hl]
+    · have hna : keyMatch r.key r.raw a = false := by
+        have := hu.1 r hr'
+        simp only [keyMatch]
+        cases h1 : a.key.eqv r.key <;> cases h2 : (a.raw == r.raw) <;> simp_all
+      rw [List.find?_cons]
+      simp only [hna, Bool.false_and]
+      exact ih hu.2 hr'
+
+/-- counterexample to the statement without `r.key ≠ .null` -/
+def exNullRow : Row :=
+  { rowid := 1, key := SqlVal.null, raw := true, storeT := 0, expT := Option.none, accT := 0, accN := 0, tag := SqlVal.null, size := 0, mode := 1, file := Option.none, val := SqlVal.int 0 }
+
+theorem live_visible_counterexample :
+    let s : Cache := { rows := [exNullRow], count := 1 }
+    KeysUnique s.rows ∧ exNullRow ∈ s.rows ∧ live 0 exNullRow = true ∧
+    s.selLive exNullRow.key exNullRow.raw 0 ≠ some exNullRow := by
+  refine ⟨?_, ?_, ?_, ?_⟩
+  · simp [KeysUnique]
+  · simp
+  · decide
+  · decide
 
 /-- whatever a look-up returns is live: an expired row is never selected -/
 theorem dead_invisible (s : Cache) (k : SqlVal) (raw : Bool) (now : Int) (r : Row)
     (h : s.selLive k raw now = some r) : live now r = true ∧ r ∈ s.rows ∧ keyMatch k raw r = true := by
-  sorry
+  unfold selLive at h
+  have h1 := List.find?_some h
+  rw [Bool.and_eq_true] at h1
+  exact ⟨h1.2, List.mem_of_find?_eq_some h, h1.1⟩
 
 /-- `get` / `[]` / `read` of a key whose only row is not live returns the default, on both
 the lock-free and the transactional path -/
 theorem get_dead_default (s : Cache) (E : Externals) (now : Int) (k : PyVal) (read et tg : Bool)
     (h : ∀ r ∈ s.rows, keyMatch (DC.put E s.cfg.disk k).1 (DC.put E s.cfg.disk k).2 r = true → live now r = false) :
     (s.get E now k read et tg).2 = defaultFlags et tg := by
-  sorry
+  have hn := selLive_none_of_dead h
+  unfold get
+  rcases hput : DC.put E s.cfg.disk k with ⟨dbk, raw⟩
+  rw [hput] at hn
+  simp only at hn ⊢
+  split
+  · simp [hn]
+  · unfold transact
+    split
+    · simp [hn]
+    · simp [hn]
 
 /-- membership of a dead key is False -/
 theorem contains_dead_false (s : Cache) (E : Externals) (now : Int) (k : PyVal)
     (h : ∀ r ∈ s.rows, keyMatch (DC.put E s.cfg.disk k).1 (DC.put E s.cfg.disk k).2 r = true → live now r = false) :
     (s.contains E now k).2 = .bool false := by
-  sorry
+  have hn := selLive_none_of_dead h
+  unfold contains
+  rcases hput : DC.put E s.cfg.disk k with ⟨dbk, raw⟩
+  rw [hput] at hn
+  simp only at hn ⊢
+  rw [hn]; rfl
 
 /-- `pop` of a dead key returns the default and removes nothing -/
 theorem pop_dead_default (s : Cache) (E : Externals) (now : Int) (k : PyVal) (et tg : Bool)
     (h : ∀ r ∈ s.rows, keyMatch (DC.put E s.cfg.disk k).1 (DC.put E s.cfg.disk k).2 r = true → live now r = false) :
     (s.pop E now k et tg).2 = defaultFlags et tg ∧ (s.pop E now k et tg).1.rows = s.rows := by
-  sorry
+  have hn := selLive_none_of_dead h
+  unfold pop
+  rcases hput : DC.put E s.cfg.disk k with ⟨dbk, raw⟩
+  rw [hput] at hn
+  simp only at hn ⊢
+  simp only [hn]
+  unfold transact
+  split <;> simp
 
 /-- `delete` of a dead key reports False and removes nothing -/
 theorem delete_dead_false (s : Cache) (E : Externals) (now : Int) (k : PyVal)
     (h : ∀ r ∈ s.rows, keyMatch (DC.put E s.cfg.disk k).1 (DC.put E s.cfg.disk k).2 r = true → live now r = false) :
     (s.delete E now k).2 = .bool false ∧ (s.delete E now k).1.rows = s.rows := by
-  sorry
+  obtain ⟨t, ht, hr⟩ := delitem_dead s E now k h
+  unfold delete
+  rw [ht]
+  exact ⟨rfl, hr⟩
 
 /-- `touch` cannot bring a dead item back to life -/
 theorem touch_dead_false (s : Cache) (E : Externals) (now : Int) (k : PyVal) (ttl : Option Int)
     (h : ∀ r ∈ s.rows, keyMatch (DC.put E s.cfg.disk k).1 (DC.put E s.cfg.disk k).2 r = true → live now r = false) :
     (s.touch E now k ttl).2 = .bool false ∧ (s.touch E now k ttl).1.rows = s.rows := by
-  sorry
+  unfold touch
+  rcases hput : DC.put E s.cfg.disk k with ⟨dbk, raw⟩
+  rw [hput] at h
+  simp only at h ⊢
+  have hk : ∀ r, s.selKey dbk raw = some r → live now r = false := by
+    intro r hr
+    unfold selKey at hr
+    exact h r (List.mem_of_find?_eq_some hr) (List.find?_some hr)
+  unfold transact
+  cases hsel : s.selKey dbk raw with
+  | none => split <;> simp [hsel]
+  | some r => split <;> simp [hsel, hk r hsel]
 
 /-- `expire()` removes exactly the items whose expiry time has passed, and returns their
 number — for every population, every multiplicity of one expiry time, every page size ≥ 1.
@@ -60,7 +137,12 @@ non-positive expiry times; fixed upstream-style in /repo, see known_findings.jso
 theorem expire_exact (s : Cache) (now : Int) (hasc : RowidsAsc s.rows) (hp : 0 < s.cfg.page) :
     (s.expire now).1.rows = s.rows.filter (fun r => !(expired now r)) ∧
     (s.expire now).2 = .int (s.rows.filter (expired now)).length := by
-  sorry
+  obtain ⟨h1, h2, -⟩ := expire_spec s now hasc hp
+  unfold expire
+  generalize expireLoop now (s.rows.length + 1) s none 0 = r at h1 h2
+  rcases r with ⟨s1, n1⟩
+  simp only at h1 h2 ⊢
+  exact ⟨h1, by rw [h2]⟩
 
 /-- the lazy removal done by a write removes at most `cull_limit` rows, and below the size
 limit only expired ones -/
@@ -69,7 +151,19 @@ theorem lazy_cull_sound (s : Cache) (now : Int) (hasc : RowidsAsc s.rows) :
     s'.rows.Sublist s.rows ∧ s.rows.length ≤ s'.rows.length + s.cfg.cullLimit ∧
     ((∀ pb, s.env.head? = some pb → belowLimit s.cfg ((pb : Int) + (s.delIn ((s.selExpired now s.cfg.cullLimit).map (·.rowid))).size) = true) →
       s.env ≠ [] → ∀ r ∈ s.rows, r ∉ s'.rows → expired now r = true) := by
-  sorry
+  intro s'
+  refine ⟨cullW_sublist s now hasc, cullW_length s now hasc, ?_⟩
+  intro hbelow henv r hr hnot
+  cases hex : expired now r with
+  | true => rfl
+  | false =>
+    obtain ⟨-, hv, -⟩ := cullW_removed s now hasc r hr hnot hex
+    cases henv' : s.env with
+    | nil => exact absurd henv' henv
+    | cons pb rest =>
+      have h1 := hv pb rest henv'
+      have h2 := hbelow pb (by rw [henv']; rfl)
+      rw [h1] at h2; cases h2
 
 /-- non-vacuity: 5 rows share one expiry time with page size 2 (the shape that broke the
 pinned tree), one row has a non-positive expiry time, one never expires -/
@@ -87,3 +181,4 @@ example : (exExpTable.expire 10).1.rows = [exExpRow 3 none, exExpRow 8 (some 50)
   decide
 
 end DC.Cache
+
